@@ -107,7 +107,12 @@ static Snapshot take_snapshot(Inst &I) {
     Snapshot s; OPNMIDIplay &p = *I.in.play();
     s.users.resize(p.m_chipChannels.size());
     for(size_t c = 0; c < p.m_chipChannels.size(); c++)
-        for(OCh::users_iterator j = p.m_chipChannels[c].users.begin(); !j.is_end(); ++j) s.users[c].push_back({(int)j->value.loc.MidCh, (int)j->value.loc.note, j->value.sustained});
+        for(OCh::users_iterator j = p.m_chipChannels[c].users.begin(); !j.is_end(); ++j) {
+            // "sustained" as the statement means it: released, and only a pedal keeps the note. A key that is still down while the sostenuto pedal is pressed carries the sostenuto mark
+            // already (it decides what happens at its release), but it is a key-down note: the MIDI channel still lists it and it lists this chip channel.
+            auto k = p.m_midiChannels[j->value.loc.MidCh].find_activenote(j->value.loc.note);
+            bool keydown = !k.is_end() && k->value.phys_find((unsigned)c) != nullptr;
+            s.users[c].push_back({(int)j->value.loc.MidCh, (int)j->value.loc.note, keydown ? 0u : (uint32_t)j->value.sustained}); }
     return s;
 }
 
